@@ -3,6 +3,8 @@
    the theorems are relative to the model's own generator (nseq), with the bridge to Rules.perft
    conditional on C01/C03 (closed in BridgeClosed.v when present); PerftCache.v adds "any state of
    the generator's caches". *)
+From ChessV Require Import Rays Abs InvProofs2 BridgeClosed.
+From ChessV Require Rules.
 From Coq Require Import NArith List Permutation.
 From ChessV Require Import Perft PerftSpec Cache PerftCache.
 Open Scope N_scope.
@@ -21,8 +23,27 @@ Check @count_top_schedule_irrelevant.
 Check @count_top_is_perft.
 Check @count_top_c_exact.
 
+
+(* ---- closed against the RULES (BridgeClosed.v): for every fair reduction order of the root results ---- *)
+Section C10_closed.
+Variable T : ztable.
+Variables rook_t bishop_t : N -> N -> N.
+Hypothesis rook_t_ref : forall x o, x < 64 -> rook_t x o = rook_ref x o.
+Hypothesis bishop_t_ref : forall x o, x < 64 -> bishop_t x o = bishop_ref x o.
+
+Theorem C10_count_positions_is_perft : forall reduce d b n b',
+  fair_reduce reduce -> Inv rook_t bishop_t b ->
+  count_top_gen T rook_t bishop_t reduce d b (turn b) = Ok (n, b') ->
+  b' = b /\ n = sumN (map (fun k => Rules.perft k (abstract b)) (seq 1 (S d))).
+Proof. exact (count_positions_is_perft T rook_t bishop_t rook_t_ref bishop_t_ref). Qed.
+End C10_closed.
+Check @count_top_total.
+Check @count_inner_is_perft_c.
+
 Print Assumptions C10_count_inner_exact.
 Print Assumptions C10_count_top_exact.
 Print Assumptions C10_count_top_schedule_irrelevant.
 Print Assumptions C10_count_top_is_perft.
 Print Assumptions C10_count_top_c_exact.
+Print Assumptions C10_count_positions_is_perft.
+Print Assumptions count_top_total.
